@@ -115,6 +115,7 @@ def generic_core(ctx, rep):
     generic_tables.rule_eqn(ctx, rep)
     generic_tables.rule_worklist(ctx, rep)
     stack_rules.rule_stack_discipline(ctx, rep, full=False)
+    spelling.rule_constant_block(ctx, rep)
 
 
 @prop("C03", "Decides the structural clauses of C03 (exactness of the transfer tables on direct checks): (T-COMB) Boolean "
@@ -327,3 +328,17 @@ def c15(ctx, rep):
     spelling.rule_one_door(ctx, rep)
     spelling.rule_rewrite_invariance(ctx, rep)
     spelling.rule_padding_invariance(ctx, rep)
+
+
+from .rules import regex_rules  # noqa: E402
+
+
+@prop("C20", "Decides C20 on program shape classes: (T-REGEX) match_regex evaluated abstractly on 11 programs (straight line, diamonds, "
+             "three-way join, loops, unreachable occurrences, occurrences across labels and interrupted by branches, subroutine calls) x 4 "
+             "patterns of 1-3 instructions x 2 labels against an independent two-pass reference on the instruction graph: the matches are "
+             "exactly the reachable straight-line occurrences, listed in order; the covered set is exactly the set of instructions from which "
+             "a match is reachable; (T-RT, C16) printed text identifies instructions. The thorough tier sweeps all control skeletons. "
+             "Not decided: all programs and patterns beyond the enumerated space.")
+def c20(ctx, rep):
+    regex_rules.rule_regex(ctx, rep)
+    optable.rule_prefix_and_roundtrip(ctx, rep)
